@@ -141,6 +141,9 @@ def run(ctx):
                     direct.append(k)
         ctx.ob('C08.R5', name, 'one atomic batch per block (exactly one commit, no other durable write)', ncommit == 1 and not direct,
                commits=ncommit, other_writes=sorted(set(direct)))
+    # R6 fork switch: rollback is durable before the new tip (shared with C04.r2)
+    from rules.C04 import tip_after_rollback
+    tip_after_rollback(ctx, 'C08.R6')
     # reviewed reference of the storage functions' durable writes (engine/census.py)
     from rules import census_fns
     census_fns.run(ctx, 'C08')
